@@ -1035,3 +1035,506 @@ func init() {
 		c17NoRoomNeverTried(p, r, "C17.n")
 	}
 }
+
+// c07NextIsOneAtomicStep (seeded C07-J): sequence.Next hands out each number once. The value it returns is the
+// result of one atomic read-modify-write of the counter (atomic.Add, or the value a successful compare-and-swap
+// installed, or an increment under a mutex); a number computed from an atomic load and written back separately can
+// be handed to two callers: a Begin and a commit that draw the same number neither see nor conflict with each other.
+func c07NextIsOneAtomicStep(p *Prog, r *Report, rule string) {
+	fi := p.Func(kSeqNext)
+	if fi == nil {
+		r.Undecided(rule, kSeqNext, "", "sequence.Next not found")
+		return
+	}
+	info := fi.Pkg.TypesInfo
+	scope := fi.Pkg.Types.Scope()
+	cons := kSeqNext + "#one-atomic-read-modify-write"
+	isCounter := func(e ast.Expr) bool {
+		e = ast.Unparen(e)
+		if u, ok := e.(*ast.UnaryExpr); ok && u.Op == token.AND {
+			e = ast.Unparen(u.X)
+		}
+		v, ok := objOf(info, e).(*types.Var)
+		if !ok || v.Parent() != scope {
+			return false
+		}
+		t := v.Type().String()
+		if b, ok := v.Type().Underlying().(*types.Basic); ok && b.Info()&types.IsInteger != 0 {
+			return true
+		}
+		return strings.HasPrefix(t, "sync/atomic.")
+	}
+	f := p.FlatInl(fi)
+	var rmw, loads []*ast.CallExpr
+	var casNodes []int
+	underMutex := false
+	for _, n := range f.Nodes {
+		if n.Ast == nil {
+			continue
+		}
+		for _, c := range callsIn(n.Ast, false) {
+			name := exprPath(c.Fun)
+			sel, isSel := ast.Unparen(c.Fun).(*ast.SelectorExpr)
+			switch {
+			case strings.HasPrefix(name, "atomic.Add") && len(c.Args) == 2 && isCounter(c.Args[0]):
+				rmw = append(rmw, c)
+			case isSel && sel.Sel.Name == "Add" && isCounter(sel.X):
+				rmw = append(rmw, c)
+			case strings.HasPrefix(name, "atomic.CompareAndSwap") && len(c.Args) == 3 && isCounter(c.Args[0]),
+				isSel && sel.Sel.Name == "CompareAndSwap" && isCounter(sel.X):
+				if n.IsCond {
+					casNodes = append(casNodes, n.ID)
+				}
+			case strings.HasPrefix(name, "atomic.Load") && len(c.Args) == 1 && isCounter(c.Args[0]),
+				isSel && sel.Sel.Name == "Load" && isCounter(sel.X):
+				loads = append(loads, c)
+			case isSel && sel.Sel.Name == "Lock":
+				if tv, ok := info.Types[sel.X]; ok && strings.HasSuffix(tv.Type.String(), "sync.Mutex") {
+					underMutex = true
+				}
+			}
+		}
+	}
+	contains := func(e ast.Expr, cs []*ast.CallExpr) bool {
+		found := false
+		ast.Inspect(e, func(x ast.Node) bool {
+			for _, c := range cs {
+				if x == c {
+					found = true
+				}
+			}
+			return !found
+		})
+		return found
+	}
+	fromRMW := func(node int, e ast.Expr) bool {
+		if contains(e, rmw) {
+			return true
+		}
+		ok := false
+		ast.Inspect(e, func(x ast.Node) bool {
+			if id, isId := x.(*ast.Ident); isId {
+				for _, o := range f.Origins(node, id) {
+					if contains(o, rmw) {
+						ok = true
+					}
+				}
+			}
+			return !ok
+		})
+		return ok
+	}
+	// a successful compare-and-swap: returns reachable only through the true edge of a CAS condition
+	g := f.WithoutEdges(func(from *GNode, e Edge) bool {
+		for _, c := range casNodes {
+			if from.ID == c && e.Label == 1 {
+				return true
+			}
+		}
+		return false
+	})
+	noCAS := g.Reach([]int{g.Entry}, nil, nil)
+	bad := ""
+	n := 0
+	for _, id := range f.ReturnNodes() {
+		rs := f.returnStmt(id)
+		if rs == nil || len(rs.Results) != 1 {
+			continue
+		}
+		n++
+		switch {
+		case fromRMW(id, rs.Results[0]):
+		case len(casNodes) > 0 && !noCAS[id]:
+		case underMutex:
+		default:
+			bad = p.pos(rs)
+		}
+	}
+	if n == 0 {
+		r.Undecided(rule, cons, p.pos(fi.Decl), "no return of a value found in sequence.Next")
+		return
+	}
+	how := "a plain read of the counter"
+	if len(loads) > 0 {
+		how = "an atomic load of the counter (" + p.pos(loads[0]) + ") and written back separately"
+	}
+	r.Check(bad == "", rule, cons, firstNonEmpty(bad, p.pos(fi.Decl)), "the returned number is the result of one atomic read-modify-write of the counter",
+		"the number Next returns is computed from "+how+": two callers that overlap get the same number; a transaction that begins with the number a commit stamps neither sees that commit nor conflicts with it, and both commits succeed")
+}
+
+func firstNonEmpty(a, b string) string {
+	if a != "" {
+		return a
+	}
+	return b
+}
+
+func init() {
+	wrap := func(id string, extra func(p *Prog, r *Report)) {
+		old := registry[id]
+		registry[id] = func(p *Prog, r *Report) {
+			old(p, r)
+			extra(p, r)
+		}
+	}
+	for id, rule := range map[string]string{"C07": "C07.c", "C08": "C08.e", "C05": "C05.g"} {
+		id, rule := id, rule
+		wrap(id, func(p *Prog, r *Report) {
+			r.Rule(rule, "sequence.Next returns the result of one atomic read-modify-write of the counter: no number is handed out twice")
+			c07NextIsOneAtomicStep(p, r, rule)
+		})
+	}
+}
+
+// bufferViewCall: c is recv.<field>.Bytes() or recv.<field>.Next(n) on a bytes.Buffer: a slice into the buffer's
+// own memory, valid only until the buffer is next written, read or reset.
+func bufferViewCall(info *types.Info, c *ast.CallExpr) (method string, buf ast.Expr, ok bool) {
+	sel, isSel := ast.Unparen(c.Fun).(*ast.SelectorExpr)
+	if !isSel || (sel.Sel.Name != "Bytes" && sel.Sel.Name != "Next") {
+		return "", nil, false
+	}
+	tv, has := info.Types[sel.X]
+	if !has {
+		return "", nil, false
+	}
+	t := tv.Type
+	if pt, isPtr := t.(*types.Pointer); isPtr {
+		t = pt.Elem()
+	}
+	if t.String() != "bytes.Buffer" {
+		return "", nil, false
+	}
+	return sel.Sel.Name, sel.X, true
+}
+
+// c12NoBufferViewOutsideTheLock (seeded C12-I): a slice returned by Bytes / Next of a buffer that a mutex guards is
+// used only while that mutex is held: once the lock is released the other side may write, and bytes.Buffer reuses
+// (resets, slides) the memory the slice points into.
+func c12NoBufferViewOutsideTheLock(p *Prog, r *Report, rule string) {
+	methods, views := 0, 0
+	for _, k := range sortedFuncKeys(p) {
+		fi := p.Funcs[k]
+		if fi.Decl == nil || fi.Decl.Body == nil || fi.Decl.Recv == nil || len(fi.Decl.Recv.List) != 1 || len(fi.Decl.Recv.List[0].Names) != 1 {
+			continue
+		}
+		info := fi.Pkg.TypesInfo
+		recv := info.Defs[fi.Decl.Recv.List[0].Names[0]]
+		if recv == nil || !ownsMutex(recv.Type()) {
+			continue
+		}
+		methods++
+		f := p.FlatOf(fi)
+		isMutexOp := func(n *GNode, names ...string) bool {
+			if n.Ast == nil {
+				return false
+			}
+			if _, isDefer := n.Ast.(*ast.DeferStmt); isDefer {
+				return false
+			}
+			for _, c := range callsIn(n.Ast, false) {
+				sel, ok := ast.Unparen(c.Fun).(*ast.SelectorExpr)
+				if !ok {
+					continue
+				}
+				for _, nm := range names {
+					if sel.Sel.Name != nm {
+						continue
+					}
+					if tv, ok := info.Types[sel.X]; ok {
+						if s := tv.Type.String(); s == "sync.Mutex" || s == "sync.RWMutex" || s == "*sync.Mutex" || s == "*sync.RWMutex" {
+							return true
+						}
+					}
+				}
+			}
+			return false
+		}
+		for _, n := range f.Nodes {
+			as, ok := n.Ast.(*ast.AssignStmt)
+			if !ok || len(as.Lhs) != len(as.Rhs) {
+				continue
+			}
+			for i, rhs := range as.Rhs {
+				c, ok := ast.Unparen(rhs).(*ast.CallExpr)
+				if !ok {
+					continue
+				}
+				m, buf, ok := bufferViewCall(info, c)
+				if !ok {
+					continue
+				}
+				root := buf
+				for {
+					if sel, ok := ast.Unparen(root).(*ast.SelectorExpr); ok {
+						root = sel.X
+						continue
+					}
+					break
+				}
+				if objOf(info, root) != recv {
+					continue
+				}
+				view := objOf(info, as.Lhs[i])
+				if view == nil {
+					continue
+				}
+				views++
+				// a use of the view after an explicit unlock (no lock taken again in between)
+				unlocked := f.Reach(f.succsOf(n.ID), func(x *GNode) bool { return false }, nil)
+				bad := ""
+				for id := range unlocked {
+					u := f.Nodes[id]
+					if !isMutexOp(u, "Unlock", "RUnlock") {
+						continue
+					}
+					after := f.Reach(f.succsOf(u.ID), func(x *GNode) bool { return isMutexOp(x, "Lock", "RLock") }, nil)
+					for uid := range after {
+						un := f.Nodes[uid]
+						if un.Ast != nil && uid != n.ID && usesObj(info, un.Ast, view) {
+							if _, reassign := un.Ast.(*ast.AssignStmt); reassign && len(assignedObjs(info, un.Ast)) > 0 && assignedObjs(info, un.Ast)[0] == view {
+								continue
+							}
+							bad = p.pos(un.Ast)
+						}
+					}
+				}
+				r.Check(bad == "", rule, fmt.Sprintf("%s#view-of-%s.%s-used-under-the-lock", k, types.ExprString(buf), m), firstNonEmpty(bad, p.pos(c)), "the slice is used only while the lock is held",
+					"the slice returned by "+types.ExprString(c.Fun)+" is used after the lock has been released: a concurrent Write reuses the buffer's memory (reset, slide) while these bytes are still being copied, and what is stored is not what was written")
+			}
+		}
+	}
+	r.Hold(rule, "methods-of-mutex-owning-types", "", fmt.Sprintf("%d methods examined, %d buffer views", methods, views))
+	r.Floor(rule, "methods-of-mutex-owning-types", methods, 20)
+}
+
+// c12SentBytesLeaveTheBuffer (seeded C12-J): in the stream writer's Write every byte is sent once: a chunk sent from
+// the pending buffer is taken out of it. Sending the non-consuming view Bytes() without a Reset on every path to
+// the end of Write sends the same bytes again with the next chunk.
+func c12SentBytesLeaveTheBuffer(p *Prog, r *Report, rule string) {
+	// the Write method of the stream writer, whatever its type is called
+	var fi *FuncInfo
+	for _, key := range sortedFuncKeys(p) {
+		if c := p.Funcs[key]; c.Decl != nil && c.Decl.Body != nil && c.Decl.Recv != nil && c.Decl.Name.Name == "Write" && shortPath(c.Pkg.PkgPath) == "internal/utils/grpc/streamwriter" {
+			fi = c
+		}
+	}
+	if fi == nil {
+		r.Undecided(rule, "internal/utils/grpc/streamwriter#Write", "", "the stream writer's Write not found")
+		return
+	}
+	k := fi.Key
+	info := fi.Pkg.TypesInfo
+	f := p.FlatOf(fi)
+	cons := k + "#each-byte-sent-once"
+	bad := ""
+	for _, n := range f.Nodes {
+		if n.Ast == nil {
+			continue
+		}
+		for _, c := range callsIn(n.Ast, false) {
+			m, buf, ok := bufferViewCall(info, c)
+			if !ok || m != "Bytes" {
+				continue
+			}
+			// is the view handed to a call (sent)? directly or through the local it is assigned to
+			var view types.Object
+			if as, ok := n.Ast.(*ast.AssignStmt); ok && len(as.Lhs) == len(as.Rhs) {
+				for i, rhs := range as.Rhs {
+					if ast.Unparen(rhs) == c {
+						view = objOf(info, as.Lhs[i])
+					}
+				}
+			}
+			var sends []int
+			for _, m2 := range f.Nodes {
+				if m2.Ast == nil {
+					continue
+				}
+				for _, c2 := range callsIn(m2.Ast, false) {
+					if c2 == c || p.staticCallee(fi.Pkg, c2) == nil {
+						continue
+					}
+					for _, a := range c2.Args {
+						if ast.Unparen(a) == c || (view != nil && objOf(info, a) == view) {
+							sends = append(sends, m2.ID)
+						}
+					}
+				}
+			}
+			for _, s := range sends {
+				// every path from the send to a return passes a Reset / Truncate of that buffer
+				resets := f.Match(func(x *GNode) bool {
+					for _, c3 := range callsIn(x.Ast, false) {
+						if sel, ok := ast.Unparen(c3.Fun).(*ast.SelectorExpr); ok && (sel.Sel.Name == "Reset" || sel.Sel.Name == "Truncate") && types.ExprString(sel.X) == types.ExprString(buf) {
+							return true
+						}
+					}
+					return false
+				})
+				rs := setOf(resets)
+				reach := f.Reach(f.succsOf(s), func(x *GNode) bool { return rs[x.ID] }, nil)
+				for _, ret := range f.successReturns(fi) {
+					if reach[ret] {
+						bad = p.pos(f.Nodes[s].Ast)
+					}
+				}
+			}
+		}
+	}
+	r.Check(bad == "", rule, cons, firstNonEmpty(bad, p.pos(fi.Decl)), "what Write sends from the pending buffer is taken out of it",
+		"Write sends the pending bytes as the view Bytes() and leaves them in the buffer: they are sent a second time with the next chunk, and the stored content is not the concatenation of the writes")
+}
+
+func init() {
+	wrap := func(id string, extra func(p *Prog, r *Report)) {
+		old := registry[id]
+		registry[id] = func(p *Prog, r *Report) {
+			old(p, r)
+			extra(p, r)
+		}
+	}
+	wrap("C12", func(p *Prog, r *Report) {
+		r.Rule("C12.h", "a slice into a mutex-guarded bytes.Buffer (Bytes / Next) is used only while the mutex is held")
+		c12NoBufferViewOutsideTheLock(p, r, "C12.h")
+		r.Rule("C12.i", "the stream writer sends each pending byte once: a Bytes() view that is sent is followed by a Reset on every path to the end of Write")
+		c12SentBytesLeaveTheBuffer(p, r, "C12.i")
+	})
+	wrap("C15", func(p *Prog, r *Report) {
+		r.Rule("C15.g", "a slice into a mutex-guarded bytes.Buffer is used only while the mutex is held (= C12.h)")
+		c12NoBufferViewOutsideTheLock(p, r, "C15.g")
+	})
+}
+
+// c14FinishedMeansPublishedOrDiscarded (seeded C14-J): once the registry has released a transaction, Commit and
+// Rollback leave only through core.UpdateTx / core.DeleteTx: the transaction's versions are published or handed to
+// the cleaner. A return in between (a rejected isolation level, a validation) strands them: the follow-up Rollback
+// finds no transaction and does nothing, and the versions stay in the store and on disk until the next restart.
+func c14FinishedMeansPublishedOrDiscarded(p *Prog, r *Report, rule string) {
+	for _, k := range []string{kTxCommit, kTxRollback} {
+		fi := p.Func(k)
+		if fi == nil {
+			r.Undecided(rule, k, "", "not found")
+			continue
+		}
+		f := p.FlatInlExcept(fi, kTxRepoDelete, kCoreDeleteTx, kUpdateTx)
+		cons := k + "#released-then-published-or-discarded"
+		sites := f.CallSites(kTxRepoDelete)
+		if len(sites) == 0 {
+			r.Undecided(rule, cons, p.pos(fi.Decl), "no call of the registry's Delete found")
+			continue
+		}
+		finish := setOf(f.CallNodes(kCoreDeleteTx, kUpdateTx))
+		for _, s := range sites {
+			if s.Kind != "assigned" || s.ErrVar == nil {
+				r.Undecided(rule, cons, p.pos(s.Call), "the error of the registry's Delete is not bound to a variable")
+				continue
+			}
+			st := f.ErrStatesFrom(s.Node, s.ErrVar)
+			reach := f.Reach(f.succsOf(s.Node), func(n *GNode) bool { return finish[n.ID] }, nil)
+			bad := ""
+			for _, id := range f.ReturnNodes() {
+				// a return reached without a finishing call, and not on the failure path of Delete itself
+				if reach[id] && len(st[id]) == 0 {
+					bad = p.pos(f.Nodes[id].Ast)
+				}
+			}
+			r.Check(bad == "", rule, cons, firstNonEmpty(bad, p.pos(s.Call)), "after the registry released the transaction every return passes core.UpdateTx / core.DeleteTx",
+				"a return after the registry has released the transaction bypasses both core.UpdateTx and core.DeleteTx: the transaction's versions are neither published nor handed to the cleaner, and no later call can reach them (Rollback finds no transaction and returns nil)")
+		}
+	}
+}
+
+func init() {
+	wrap := func(id string, extra func(p *Prog, r *Report)) {
+		old := registry[id]
+		registry[id] = func(p *Prog, r *Report) {
+			old(p, r)
+			extra(p, r)
+		}
+	}
+	for id, rule := range map[string]string{"C14": "C14.i", "C03": "C03.j"} {
+		id, rule := id, rule
+		wrap(id, func(p *Prog, r *Report) {
+			r.Rule(rule, "a finished transaction's versions are published or discarded: after the registry's Delete succeeded, Commit / Rollback return only through core.UpdateTx / core.DeleteTx")
+			c14FinishedMeansPublishedOrDiscarded(p, r, rule)
+		})
+	}
+}
+
+// c14DrainLoopsPopEverything (seeded C14-I): the loops of UpdateTx / DeleteTx / DeleteOld that take the remaining
+// versions of a key pop until the list is empty. A counted loop whose bound is re-read from the list it pops
+// (for i := 0; i < f.Len(); i++ { f.PopFront() }) stops half way: the bound shrinks while the counter grows, and
+// what is left is neither published nor handed to the cleaner.
+func c14DrainLoopsPopEverything(p *Prog, r *Report, rule string) {
+	n := 0
+	for _, k := range []string{kUpdateTx, kCoreDeleteTx, kCoreDeleteOld} {
+		fi := p.Func(k)
+		if fi == nil {
+			continue
+		}
+		info := fi.Pkg.TypesInfo
+		for _, loop := range forLoops(fi.Decl.Body) {
+			// the list the loop pops from
+			popped := ""
+			var scope []ast.Node
+			if loop.Post != nil {
+				scope = append(scope, loop.Post)
+			}
+			if loop.Init != nil {
+				scope = append(scope, loop.Init)
+			}
+			scope = append(scope, loop.Body)
+			for _, sc := range scope {
+				ast.Inspect(sc, func(x ast.Node) bool {
+					if inner, ok := x.(*ast.ForStmt); ok && inner != loop {
+						return false
+					}
+					if c, ok := x.(*ast.CallExpr); ok {
+						if sel, ok := ast.Unparen(c.Fun).(*ast.SelectorExpr); ok && (sel.Sel.Name == "PopFront" || sel.Sel.Name == "PopBack") {
+							popped = types.ExprString(sel.X)
+						}
+					}
+					return true
+				})
+			}
+			if popped == "" || loop.Cond == nil {
+				continue
+			}
+			n++
+			cons := fmt.Sprintf("%s#drain-loop/%d pops until the list is empty", k, n)
+			// counted: i < <popped>.M() with i stepped in Post
+			counted := false
+			if be, ok := ast.Unparen(loop.Cond).(*ast.BinaryExpr); ok && (be.Op == token.LSS || be.Op == token.LEQ || be.Op == token.GTR || be.Op == token.GEQ) {
+				for _, side := range []ast.Expr{be.X, be.Y} {
+					if c, ok := ast.Unparen(side).(*ast.CallExpr); ok {
+						if sel, ok := ast.Unparen(c.Fun).(*ast.SelectorExpr); ok && types.ExprString(sel.X) == popped {
+							if _, isInc := loop.Post.(*ast.IncDecStmt); isInc {
+								counted = true
+							}
+						}
+					}
+					if c, ok := ast.Unparen(side).(*ast.CallExpr); ok {
+						if id, ok := c.Fun.(*ast.Ident); ok && id.Name == "len" && len(c.Args) == 1 && strings.HasPrefix(types.ExprString(c.Args[0]), popped+".") {
+							if _, isInc := loop.Post.(*ast.IncDecStmt); isInc {
+								counted = true
+							}
+						}
+					}
+				}
+			}
+			_ = info
+			r.Check(!counted, rule, cons, p.pos(loop), "the loop does not count against a bound re-read from the list it pops",
+				"the loop counts up to a bound it re-reads from "+popped+" on every iteration while popping from it: the bound shrinks as the counter grows, only half of the versions are taken, and the rest is neither published nor handed to the cleaner")
+		}
+	}
+	r.Floor(rule, "drain-loops", n, 2)
+}
+
+func init() {
+	old := registry["C14"]
+	registry["C14"] = func(p *Prog, r *Report) {
+		old(p, r)
+		r.Rule("C14.j", "the loops that take the remaining versions of a key pop until the list is empty (no counted loop against a bound re-read from the shrinking list)")
+		c14DrainLoopsPopEverything(p, r, "C14.j")
+	}
+}
